@@ -232,6 +232,7 @@ Section Stable.
     Good (r_cl s) -> fstep s (apply_one sc pl g s p).
   Proof.
     intros Hi HL G. unfold apply_one. destruct (p_local p) as [l|] eqn:EL; [|apply fstep_refl].
+    destruct (negb (kind_known sc (r_known s) (p_id p))); [apply f_result|].
     pose proof (f_policy_apply_filter s (p_id p)) as P.
     pose proof (same4_policy_apply_filter sc s (p_id p)) as [P1 _].
     destruct (policy_apply_filter sc s (p_id p)) as [s1 f1]. cbn [fst] in P, P1.
